@@ -135,11 +135,17 @@ func harnessC08(nMembers, opFixed int, withFault bool) {
 		case verifOp8SetDesc:
 			msg := base
 			d := &MsgSetDesc{}
-			if verifNondetBool("setPublic") {
+			switch verifChoose("setPublic", 3) {
+			case 1:
 				d.Public = "public-v2"
+			case 2:
+				d.Public = nullValue // the "delete this value" marker
 			}
-			if verifNondetBool("setPrivate") {
+			switch verifChoose("setPrivate", 3) {
+			case 1:
 				d.Private = "private-v2"
+			case 2:
+				d.Private = nullValue
 			}
 			if verifNondetBool("setDefacs") {
 				d.DefaultAcs = &MsgDefaultAcsMode{Auth: "JRW", Anon: "N"}
